@@ -74,6 +74,10 @@ def run(d, n, props, tier="quick"):
     rc, out = sh(["git", "-C", "/repo", "apply", patch])
     assert rc == 0, out
     results = {}
+    # evidence written while a seeded change is applied must never replace the evidence of the unchanged tree
+    evbak = tempfile.mkdtemp(prefix="seedev_")
+    for f in os.listdir("/verif/evidence"):
+        shutil.copy2(os.path.join("/verif/evidence", f), evbak)
     try:
         for p in props:
             rc, out = sh(["/verif/bin/check", p, tier], cwd="/verif")
@@ -85,6 +89,9 @@ def run(d, n, props, tier="quick"):
         # bring the regenerated Lean data and the driver back to the unchanged tree
         sh(["/verif/build/extract", "-repo", "/repo", "-out", "/verif/lean/SC/Gen"])
         sh(["lake", "build", "driver"], cwd="/verif/lean")
+        for f in os.listdir(evbak):
+            shutil.copy2(os.path.join(evbak, f), "/verif/evidence")
+        shutil.rmtree(evbak)
     for p, (rc, line) in results.items():
         print("RUN %s patch%s on %s: rc=%d %s" % (os.path.basename(d), n, p, rc, line[:300]))
     return results
